@@ -90,7 +90,47 @@ func checkC03(c *Ctx, r *Report) {
 	r.Check(isNilConst(ret.Results[1]), "VERDICT-EXPRESSION", "sm2.VerifyHashed error on accept", p.InstrPos(ret), "the accepting return carries a nil error")
 	// wrappers: decided under C13 (referenced)
 	c03Decoders(r, p, f)
+	// the named predicates the accepted guard spellings rely on must mean what their names say
+	checkPredicateDefs(r, p, f)
 	r.Floor("required_guards", 13)
+}
+
+// checkPredicateDefs: the inventory accepts guards spelled through repository predicates (IsInfinity, IsZero); their own
+// definitions are checked here: one return whose canonical expression is the projective definition.
+func checkPredicateDefs(r *Report, p *Prog, f *Folder) {
+	for _, d := range []struct {
+		fn     string
+		accept []string
+		means  string
+	}{
+		{"sm2/internal.(*SM2Point).IsInfinity", []string{"(SM2Element.IsZero(*p.z) == 1)", "(SM2Element.IsZero(*p.z) != 0)", "(1 == SM2Element.IsZero(*p.z))"}, "Z == 0 (every projective representative (X:Y:0) of the point at infinity)"},
+		{"sm2/internal/fiat.(*SM2Element).IsZero", []string{"ConstantTimeCompare(SM2Element.Bytes(e),bytes32(0))", "ConstantTimeCompare(bytes32(0),SM2Element.Bytes(e))"}, "the canonical encoding equals 32 zero bytes"},
+	} {
+		fn := p.MustFunc(r, d.fn)
+		if fn == nil {
+			continue
+		}
+		var rets []*ssa.Return
+		for _, b := range fn.Blocks {
+			if ret, ok := b.Instrs[len(b.Instrs)-1].(*ssa.Return); ok {
+				rets = append(rets, ret)
+			}
+		}
+		if len(rets) != 1 {
+			r.Viol("PREDICATE-DEF", d.fn, p.Pos(fn.Pos()), fmt.Sprintf("%d returns; the definition is expected to be one expression", len(rets)))
+			continue
+		}
+		ps := newPathSym(p, fn, f)
+		ps.WalkTo(rets[0].Block())
+		got := normText(ps.S(rets[0].Results[0]))
+		ok := false
+		for _, a := range d.accept {
+			if got == normText(a) {
+				ok = true
+			}
+		}
+		r.Check(ok, "PREDICATE-DEF", d.fn, p.InstrPos(rets[0]), "returns "+got+"; required meaning: "+d.means)
+	}
 }
 
 // c03Decoders: inventories of the point and element decoders (shared with C12, C15, C16).
